@@ -696,6 +696,7 @@ type vxC17Case struct {
 	Release   bool         `json:"release"` // held queries are answered when the rest of their group is done (else never)
 	WaitHeld  bool         `json:"wait_held"`
 	Post      int          `json:"post"` // queries after Close
+	TOLimit   int          `json:"timeout_limit,omitempty"` // >0: the deprecated global TimeoutLimit: a connection is closed after that many request timeouts (held queries time out)
 	Keyspace  bool         `json:"keyspace,omitempty"` // ClusterConfig.Keyspace set: every pool connection sends USE as its first request (so hs step 2 fails the USE)
 }
 
@@ -1260,6 +1261,8 @@ func vxC17Run(c *vxC17Case, k *vstats.Case) error {
 		time.Sleep(2 * time.Millisecond)
 	}
 
+	TimeoutLimit = int64(c.TOLimit) // package-level knob of the driver; cases run one at a time
+	defer func() { TimeoutLimit = 0 }()
 	t0 := time.Now()
 	dbg := func(what string) {
 		if os.Getenv("VX_C17_DEBUG") != "" {
@@ -1501,7 +1504,8 @@ func vxC17Run(c *vxC17Case, k *vstats.Case) error {
 			break
 		}
 		// ---- quiescence: bounds hold strictly, killed connections are replaced ----------------
-		if e := w.settle(disturbed, kills > 0, out); e != nil {
+		// a connection closed by the timeout limit must be replaced like one the node killed
+		if e := w.settle(disturbed, kills > 0 || (c.TOLimit > 0 && holds > 0), out); e != nil {
 			timing = e
 			break
 		}
@@ -1889,6 +1893,15 @@ func vxC17DrawCase(t *rapid.T, small bool) *vxC17Case {
 	c.WaitHeld = rapid.Bool().Draw(t, "wait_held")
 	c.Post = rapid.IntRange(1, 4).Draw(t, "post")
 	c.Keyspace = rapid.IntRange(0, 2).Draw(t, "keyspace") == 0
+	if rapid.IntRange(0, 7).Draw(t, "tolimit") == 0 {
+		// the limit bites when one connection collects limit+1 timeouts: one connection per host, at most two
+		// hosts, held queries that are never answered (added to the first group below)
+		c.TOLimit = rapid.IntRange(1, 2).Draw(t, "limit")
+		c.NumConns, c.Release = 1, false
+		if c.Hosts > 2 {
+			c.Hosts = 2
+		}
+	}
 	for hi := 0; hi < c.Hosts; hi++ {
 		f := vxC17Fault{}
 		if rapid.IntRange(0, 9).Draw(t, "faulty") < 3 {
@@ -1941,9 +1954,17 @@ func vxC17DrawCase(t *rapid.T, small bool) *vxC17Case {
 		ngroups = rapid.IntRange(0, 1).Draw(t, "groups_small")
 		maxActs = 4
 	}
+	if c.TOLimit > 0 && ngroups == 0 {
+		ngroups = 1
+	}
 	for g := 0; g < ngroups; g++ {
 		n := rapid.IntRange(1, maxActs).Draw(t, "acts")
 		var grp []vxC17Act
+		if c.TOLimit > 0 && g == 0 {
+			for i, nh := 0, 2*c.Hosts*(c.TOLimit+1); i < nh; i++ {
+				grp = append(grp, vxC17Act{Kind: "hold", Spin: i % 3})
+			}
+		}
 		for i := 0; i < n; i++ {
 			a := drawAct(pre)
 			if a.Kind == "pause" && a.N > 100 && rapid.IntRange(0, 3).Draw(t, "longpause") != 0 {
@@ -2018,6 +2039,9 @@ func vxC17Eval(ci interface{}, k *vstats.Case) error {
 	}
 	k.Class(fmt.Sprintf("hosts=%d", c.Hosts))
 	k.Class(fmt.Sprintf("numconns=%d", c.NumConns))
+	if c.TOLimit > 0 {
+		k.Class("timeout-limit-set")
+	}
 	if c.Keyspace {
 		k.Class("keyspace-set")
 		for _, f := range c.Faults {
